@@ -2,14 +2,17 @@ CONSTANTS
     Tables <- MCTables
     TableOf <- MCTableOf
     InitFS <- MCInitFS
-    HostSrc <- NoSrc
-    CtrSrc <- NoSrc
+    HostSrc <- MCHostSrc
+    CtrSrc <- MCCtrSrc
     HostDst <- MCHostDst
     CtrDst <- MCCtrDst
     Envs <- AllEnvs
-    Names = {"x1"}
-    MaxOps = 2
-SPECIFICATION FairSpec
+    Names = {"x1", "x2"}
+    MaxOps = 1000
+INIT TInit
+NEXT TNext
+CONSTRAINT Diag
+INVARIANT Accept
 INVARIANT TypeOK
 INVARIANT ExecNeedsContainer
 INVARIANT NoLeak
@@ -17,5 +20,6 @@ INVARIANT ExternalUntouched
 INVARIANT PreparedBeforeRun
 INVARIANT InstanceFaithful
 INVARIANT NoInstanceBefore
-PROPERTY DeployTerminates
-PROPERTY UndeployTerminates
+INVARIANT ContentPreserved
+INVARIANT DecisionFaithful
+INVARIANT StreamOnlyWhenHidden
